@@ -46,7 +46,8 @@ def main(argv):
         out["twin"]["pre_violation"] = tw["violations"][0]["kind"]
 
     # 2. the obligation itself
-    st = sx.explore(fn, params, budget=budget, path_timeout=path_timeout, known=known)
+    st = sx.explore(fn, params, budget=budget, path_timeout=path_timeout, known=known,
+                    max_new=int(os.environ.get("VERIF_MAXNEW", "1")))
     out["main"] = st
 
     # 3. plain re-execution of sampled confirmed paths: functions driven + consistency
